@@ -184,7 +184,7 @@ while True:
 	select {
 	case err := <-done:
 		return err
-	case <-time.After(10 * time.Second):
+	case <-time.After(90 * time.Second): // a python start-up, on a machine that may be running every other check as well
 		return fmt.Errorf("listener did not come up")
 	}
 }
@@ -217,7 +217,7 @@ func (l *lab) delay(k int, ms int) error {
 			if err != nil {
 				return fmt.Errorf("delay program: %v", err)
 			}
-		case <-time.After(10 * time.Second):
+		case <-time.After(90 * time.Second):
 			return fmt.Errorf("delay program did not come up")
 		}
 		if _, err := run("ip", "netns", "exec", l.ns[k], ipt, "-A", "OUTPUT", "-d", src, "-j", "NFQUEUE", "--queue-num", "9"); err != nil {
